@@ -11,7 +11,9 @@
     Part E  the monitor [C10_ok] holds of the model under hygiene; the
             DESIGN-level statements C10_inside / C10_distinct / C10_writes_inside.
     Part F  the boolean hygiene [h10b] (complement of the known-finding
-            signatures) implies the Prop hygiene; refutations outside it. *)
+            signatures) implies the Prop hygiene; refutations outside it.
+    Part G  (placed after Part C) [npath] yields a normal form, [normpath] is
+            idempotent. *)
 From Coq Require Import List Arith NArith Bool Lia.
 From MWF Require Import Base.Str Gen.SafePathData Expand.SafePath.
 Import ListNotations.
@@ -456,6 +458,206 @@ Proof.
   unfold np_child, np_inside. intro H. apply andb_true_iff in H. destruct H as [H1 H2].
   apply Nat.eqb_eq in H2. rewrite H1. simpl. apply Nat.ltb_lt. lia.
 Qed.
+
+(* ------------------------------------------------------------------------ *)
+(** * Part G -- [npath] computes a normal form; [normpath] is idempotent *)
+
+(** a normal component list: some ".." (none when the path is absolute)
+    followed by slash-free components other than "", ".", ".." *)
+Definition normal_comps (absolute : bool) (l : list str) : Prop :=
+  exists k rest, l = repeat dotdot k ++ rest /\ (absolute = true -> k = 0) /\ Forall okcomp rest.
+
+Lemma split_slash_slashfree x : Forall (fun c => ~ In SLASH c) (split_slash x).
+Proof.
+  induction x as [|c x IH]; simpl.
+  - constructor; [intros [] | constructor].
+  - destruct (N.eqb c SLASH) eqn:E.
+    + constructor; [intros [] | exact IH].
+    + destruct (split_slash x) as [|hd tl]; [constructor; [| constructor] |].
+      * intros [K | []]. subst. rewrite N.eqb_refl in E. discriminate.
+      * inversion IH; subst. constructor; [| assumption].
+        intros [K | K]; [subst; rewrite N.eqb_refl in E; discriminate | contradiction].
+Qed.
+
+Definition stk_ok (absolute : bool) (stk : list str) : Prop :=
+  exists g k, stk = g ++ repeat dotdot k /\ Forall okcomp g /\ (absolute = true -> k = 0).
+
+Lemma dotdot_not_ok : ~ okcomp dotdot.
+Proof. intros [_ [_ [_ H]]]. congruence. Qed.
+
+Lemma norm_step_ok absolute stk c :
+  ~ In SLASH c -> stk_ok absolute stk -> stk_ok absolute (norm_step absolute stk c).
+Proof.
+  intros Hc [g [k [E [Hg Hk]]]]. unfold norm_step.
+  destruct (is_empty c) eqn:E1; [exists g, k; auto |].
+  destruct (str_eqb c dot) eqn:E2; [exists g, k; auto |]. simpl.
+  destruct (str_eqb c dotdot) eqn:E3.
+  - apply seqb_iff in E3. subst c.
+    destruct stk as [|t stk'].
+    + destruct absolute; [exists [], 0; auto |].
+      exists [], 1. repeat split; [constructor | discriminate].
+    + destruct (str_eqb t dotdot) eqn:E4.
+      * apply seqb_iff in E4. subst t.
+        destruct g as [|t g'].
+        -- simpl in E. exists [], (S k). simpl. rewrite <- E. repeat split; [constructor |].
+           intro A. specialize (Hk A). subst k. discriminate.
+        -- inversion E; subst. inversion Hg; subst. exfalso. apply dotdot_not_ok. assumption.
+      * apply seqb_false_iff in E4. destruct g as [|t' g'].
+        -- simpl in E. destruct k; [discriminate |]. simpl in E. inversion E. congruence.
+        -- inversion E; subst. inversion Hg; subst. exists g', k. auto.
+  - exists (c :: g), k. repeat split; [rewrite E; reflexivity | | exact Hk].
+    constructor; [| exact Hg]. split; [exact Hc |].
+    apply is_empty_false in E1. apply seqb_false_iff in E2, E3. repeat split; assumption.
+Qed.
+
+Lemma norm_stack_ok absolute : forall comps stk,
+  Forall (fun c => ~ In SLASH c) comps -> stk_ok absolute stk ->
+  stk_ok absolute (norm_stack absolute comps stk).
+Proof.
+  unfold norm_stack. induction comps as [|c comps IH]; intros stk Hc Hs; simpl; [exact Hs |].
+  inversion Hc; subst. apply IH; [assumption |]. apply norm_step_ok; assumption.
+Qed.
+
+Lemma rev_repeat {A} (x : A) k : rev (repeat x k) = repeat x k.
+Proof.
+  induction k as [|k IH]; simpl; [reflexivity |]. rewrite IH.
+  clear IH. induction k as [|k IH]; simpl; [reflexivity |]. rewrite IH. reflexivity.
+Qed.
+
+Lemma Forall_rev' {A} (P : A -> Prop) l : Forall P l -> Forall P (rev l).
+Proof. rewrite !Forall_forall. intros H x Hx. apply H. apply in_rev. exact Hx. Qed.
+
+Theorem npath_normal x : normal_comps (0 <? fst (npath x)) (snd (npath x)).
+Proof.
+  unfold npath. simpl.
+  destruct (norm_stack_ok (0 <? lead_slashes x) (split_slash x) [] (split_slash_slashfree x))
+    as [g [k [E [Hg Hk]]]].
+  - exists [], 0. repeat split; constructor.
+  - rewrite E, rev_app_distr, rev_repeat. exists k, (rev g).
+    repeat split; [exact Hk | apply Forall_rev'; exact Hg].
+Qed.
+
+Lemma lead_slashes_le x : lead_slashes x <= 2.
+Proof.
+  unfold lead_slashes. destruct x as [|a [|b [|c r]]]; simpl;
+    repeat match goal with |- context [N.eqb ?u ?v] => destruct (N.eqb u v) end; simpl.
+  all: lia.
+Qed.
+
+Lemma split_slash_repeat l y :
+  split_slash (repeat SLASH l ++ y) = repeat [] l ++ split_slash y.
+Proof. induction l as [|l IH]; simpl; [reflexivity |]. rewrite IH. reflexivity. Qed.
+
+Lemma norm_stack_empties absolute l cs stk :
+  norm_stack absolute (repeat [] l ++ cs) stk = norm_stack absolute cs stk.
+Proof. induction l as [|l IH]; simpl; [reflexivity | exact IH]. Qed.
+
+Lemma join_slash_cons c r : r <> [] -> join_slash (c :: r) = c ++ SLASH :: join_slash r.
+Proof. destruct r; [congruence | reflexivity]. Qed.
+
+Lemma split_join_slash : forall comps,
+  comps <> [] -> Forall (fun c => ~ In SLASH c) comps -> split_slash (join_slash comps) = comps.
+Proof.
+  induction comps as [|c r IH]; intros Hne Hc; [congruence |].
+  inversion Hc; subst. destruct r as [|d r'].
+  - simpl. apply split_slash_noslash. assumption.
+  - rewrite join_slash_cons by discriminate. rewrite split_slash_app.
+    rewrite split_slash_noslash by assumption. rewrite IH; [reflexivity | discriminate | assumption].
+Qed.
+
+Lemma norm_stack_dotdots : forall k j,
+  norm_stack false (repeat dotdot k) (repeat dotdot j) = repeat dotdot (k + j).
+Proof.
+  induction k as [|k IH]; intro j; simpl; [reflexivity |].
+  replace (norm_step false (repeat dotdot j) dotdot) with (repeat dotdot (S j)).
+  - rewrite IH. replace (k + S j) with (S (k + j)) by lia. reflexivity.
+  - destruct j; reflexivity.
+Qed.
+
+Lemma norm_stack_goods absolute : forall g stk,
+  Forall okcomp g -> norm_stack absolute g stk = rev g ++ stk.
+Proof.
+  induction g as [|c g IH]; intros stk H; simpl; [reflexivity |].
+  inversion H as [|? ? [_ Hc] Hg]; subst. rewrite norm_step_good by exact Hc.
+  rewrite IH by exact Hg. rewrite <- app_assoc. reflexivity.
+Qed.
+
+Lemma norm_stack_normal absolute comps :
+  normal_comps absolute comps -> norm_stack absolute comps [] = rev comps.
+Proof.
+  intros [k [g [E [Hk Hg]]]]. subst comps. rewrite norm_stack_app.
+  assert (K : norm_stack absolute (repeat dotdot k) [] = repeat dotdot k).
+  { destruct absolute.
+    - rewrite (Hk eq_refl). reflexivity.
+    - change (@nil str) with (repeat dotdot 0). rewrite (norm_stack_dotdots k 0). f_equal. lia. }
+  rewrite K, norm_stack_goods by exact Hg. rewrite rev_app_distr, rev_repeat. reflexivity.
+Qed.
+
+Lemma normal_slashfree absolute comps :
+  normal_comps absolute comps -> Forall (fun c => ~ In SLASH c) comps.
+Proof.
+  intros [k [g [E [_ Hg]]]]. subst. apply Forall_app. split.
+  - apply Forall_forall. intros c Hc. apply repeat_spec in Hc. subst.
+    intros [K | [K | []]]; discriminate.
+  - eapply Forall_impl; [| exact Hg]. intros c [H _]. exact H.
+Qed.
+
+Lemma normal_head absolute c r :
+  normal_comps absolute (c :: r) -> exists a c', c = a :: c' /\ a <> SLASH.
+Proof.
+  intros [k [g [E [_ Hg]]]]. destruct k.
+  - simpl in E. subst g. inversion Hg as [|? ? [Hs [Hne _]] _]; subst.
+    destruct c as [|a c']; [congruence |]. exists a, c'. split; [reflexivity |].
+    intro. subst. apply Hs. left. reflexivity.
+  - simpl in E. inversion E. exists DOT, [DOT]. split; [reflexivity | discriminate].
+Qed.
+
+Lemma lead_slashes_repeat l y :
+  l <= 2 -> (y = [] \/ exists a y', y = a :: y' /\ a <> SLASH) ->
+  lead_slashes (repeat SLASH l ++ y) = l.
+Proof.
+  intros Hl Hy.
+  destruct Hy as [E | [a [y' [E Ha]]]]; subst.
+  - destruct l as [|[|[|l]]]; try reflexivity; lia.
+  - apply N.eqb_neq in Ha.
+    destruct l as [|[|[|l]]]; simpl; rewrite ?Ha; try reflexivity. lia.
+Qed.
+
+Lemma join_slash_head c r : exists t, join_slash (c :: r) = c ++ t.
+Proof.
+  destruct r; [exists []; simpl; rewrite app_nil_r; reflexivity |].
+  eexists. rewrite join_slash_cons by discriminate. reflexivity.
+Qed.
+
+Theorem npath_normpath x : npath (normpath x) = npath x.
+Proof.
+  pose proof (npath_normal x) as Hn. pose proof (lead_slashes_le x) as Hl.
+  unfold normpath. destruct (npath x) as [l comps] eqn:E.
+  assert (El : l = lead_slashes x) by (unfold npath in E; inversion E; reflexivity).
+  simpl in Hn. rewrite <- El in Hl.
+  destruct comps as [|c r].
+  - (* only slashes, or nothing *)
+    simpl. rewrite app_nil_r.
+    destruct l as [|[|[|l]]]; try reflexivity. lia.
+  - destruct (normal_head _ c r Hn) as [a [c' [Ec Ha]]].
+    destruct (join_slash_head c r) as [t Et].
+    assert (Hne : is_empty (repeat SLASH l ++ join_slash (c :: r)) = false).
+    { rewrite Et, Ec. destruct l; reflexivity. }
+    rewrite Hne. unfold npath.
+    assert (Hlead : lead_slashes (repeat SLASH l ++ join_slash (c :: r)) = l).
+    { apply lead_slashes_repeat; [exact Hl |].
+      right. rewrite Et, Ec. simpl. eexists; eexists; split; [reflexivity | exact Ha]. }
+    rewrite Hlead. f_equal.
+    rewrite split_slash_repeat, norm_stack_empties.
+    rewrite split_join_slash; [| discriminate | exact (normal_slashfree _ _ Hn)].
+    rewrite norm_stack_normal by exact Hn. apply rev_involutive.
+Qed.
+
+Theorem normpath_idempotent x : normpath (normpath x) = normpath x.
+Proof. unfold normpath at 1 3. rewrite npath_normpath. reflexivity. Qed.
+
+Lemma normpath_idem x : npath (normpath x) = npath x /\ normpath (normpath x) = normpath x.
+Proof. split; [apply npath_normpath | apply normpath_idempotent]. Qed.
 
 (* ------------------------------------------------------------------------ *)
 (** * Part D -- file names (adapter templates, T-data) *)
